@@ -13,5 +13,5 @@ CONSTANTS
     GenDepth = 70
 SPECIFICATION SpecH
 CONSTRAINT Bound
-INVARIANTS TypeOK KeyInForce ParentRule StopsOnGap NoTwoArtifacts ArtifactRefsItsCertificate NoDoubleCertificationK AttributionK SignerListHonestK GenPrint
+INVARIANTS CertifiedHasCertificate TypeOK KeyInForce ParentRule StopsOnGap NoTwoArtifacts ArtifactRefsItsCertificate NoDoubleCertificationK AttributionK SignerListHonestK GenPrint
 CHECK_DEADLOCK FALSE
